@@ -24,9 +24,10 @@ def cmd_setup(argv):
     for extra in ("libdiff", "corpus"):
         try:
             mod = importlib.import_module("verif." + extra)
-            mod.setup()
         except ModuleNotFoundError:
-            pass
+            continue
+        if hasattr(mod, "setup"):
+            mod.setup()
     return 0
 
 
